@@ -57,3 +57,20 @@ def crcmod_agrees():
 def pus_crc_check(data: Bytes):
     """the standalone PUS CRC check reports exactly 'residue is zero'"""
     ensures("verdict", check_pus_crc(data) == (crc16(data) == 0))
+
+
+W1 = Choice(1, 2)
+
+
+@obligation(["C04"], "cfdp/crc-flag-bit-error")
+def cfdp_crc_flag_bit(we: W1, ws: W1, src: IntRange(0, 255), seq: IntRange(0, 255), dst: IntRange(0, 255),
+                      mode: EnumOf(TransmissionMode), large: EnumOf(LargeFileFlag), resp: EnumOf(ResponseRequired)):
+    """single-bit error in the CRC flag of a CRC-protected PDU (octet 0, bit 1: not a length-determining octet).
+    727.0-B-5 puts the flag that announces the checksum inside the data it would protect, so a decoder cannot notice this
+    particular error: recorded as a known finding (KNOWN_FINDINGS.json), every other position is covered by the lemma chain."""
+    conf = mk_conf(we, ws, src, seq, dst, mode, CrcFlag.WITH_CRC, large, Direction.TOWARDS_RECEIVER, SegmentationControl.NO_RECORD_BOUNDARIES_PRESERVATION)
+    raw = PromptPdu(conf, resp).pack()
+    ensures("uncorrupted-accepted", outcome(PromptPdu.unpack, raw).ok)
+    corrupted = be(1, raw[0] - 2) + raw[1:len(raw)]
+    o = outcome(PduFactory.from_raw, corrupted)
+    ensures("flag-bit-error-refused", not o.ok)
